@@ -1217,10 +1217,30 @@ class NestedSampler(BaseNestedSampler):
                 self.block_acceptance = 0.0
                 self.block_iteration = 0
 
-        if self.checkpointing:
+        if self.checkpointing or getattr(self, "_checkpoint_deferred", False):
+            self._checkpoint_deferred = False
             self.checkpoint(periodic=True)
 
         self.proposal.ns_acceptance = self.mean_block_acceptance
+
+    def checkpoint(self, periodic=False, force=False, **kwargs):
+        """Checkpoint the sampler.
+
+        Periodic checkpoints requested part-way through an iteration (e.g.
+        after training whilst the replacement point is being drawn) are
+        deferred until the end of the iteration. Resuming from a checkpoint
+        written after the worst point has been discarded but before it has
+        been replaced would discard the same point twice.
+        """
+        if (
+            periodic
+            and not force
+            and self.live_points is not None
+            and len(self.nested_samples) != len(self.insertion_indices)
+        ):
+            self._checkpoint_deferred = True
+            return
+        super().checkpoint(periodic=periodic, force=force, **kwargs)
 
     def check_resume(self):
         """
